@@ -4,6 +4,7 @@ from .common import Contract, Registry, LoopSpec, BASE_ENV, INIT, LINUX_PY, boun
 from vc.interp import PS_EXC, ModuleSrc
 from vc import cvc
 from vc.cvc import PV, Mem, IV, Cell, bvc, bv64
+from . import C18 as _c18
 
 REGISTRY = Registry()
 Z = cvc.Z
@@ -28,7 +29,7 @@ ASSUMPTIONS = ["clang's macro-expanded AST of the working tree's C file is the c
                "failure psutil_net_if_addrs' error path would pass an uninitialised pointer to freeifaddrs()"]
 NOT_COVERED = ["whole-extension memory safety beyond the functions under contract: bounded ASan+UBSan grid over every "
                "mod_methods entry (argument grid) and generated utmp / mounts files, not proved",
-               "psutil_net_if_flags (3^20 paths), psutil_proc_cpu_affinity_get (symbolically sized cpu set): sanitizer grid only",
+               "psutil_net_if_flags (3^20 paths): sanitizer grid only",
                "'agree with the kernel's interface list, addresses, MTU and flags': both sides are the kernel; only the "
                "decoding is within a contract's reach",
                "_pslinux.users/disk_partitions/net_if_stats loops: unrolled for record lists of length <= 2 with arbitrary "
@@ -243,6 +244,9 @@ C_CONTRACTS = [
     cvc.CContract("C17", "psutil/arch/linux/proc.c", "psutil_proc_cpu_affinity_set", filt="affinity_set",
                   loops={0: cvc.LoopCut()},
                   note="every long item: either an error or a store inside cpu_set_t (CPU_SET bounds check)"),
+    cvc.CContract("C17", "psutil/arch/linux/proc.c", "psutil_proc_cpu_affinity_get", filt="affinity_get",
+                  loops=_c18.AFF_GET.loops, checks=_c18.AFF_GET.checks, post=_c18.AFF_GET.post, replay="c18:live",
+                  note=_c18.AFF_GET.note),
     cvc.CContract("C17", "psutil/arch/linux/proc.c", "psutil_proc_ioprio_get", filt="ioprio", enums={"IOPRIO_WHO_PROCESS": 1}),
     cvc.CContract("C17", "psutil/arch/linux/proc.c", "psutil_proc_ioprio_set", filt="ioprio", enums={"IOPRIO_WHO_PROCESS": 1},
                   replay="c18:ioprio_set", note="no shift UB for any (ioclass, iodata) ints"),
